@@ -545,14 +545,15 @@ fn write_olde_ecl(
         return Err(emitter.emit(error!("too many timelines! (max allowed in this game is {max_timelines})")));
     }
 
+    let num_subs: u16 = llir::header_field(emitter, "number of subs", ecl.subs.len() as i64)?;
     match format.timeline_array_kind() {
         | TimelineArrayKind::Pofv { .. }
         | TimelineArrayKind::Pcb { .. } => {
-            w.write_u16(ecl.subs.len() as _)?;
-            w.write_u16(ecl.timelines.len() as _)?;
+            w.write_u16(num_subs)?;
+            w.write_u16(llir::header_field(emitter, "number of timelines", ecl.timelines.len() as i64)?)?;
         },
         | TimelineArrayKind::Eosd { .. } => {
-            w.write_u16(ecl.subs.len() as _)?;
+            w.write_u16(num_subs)?;
             w.write_u16(0)?;
         },
     };
